@@ -10,22 +10,22 @@ macro "inv_num" : tactic =>
       List.length_append] at * <;> omega))
 
 theorem inv_parser (s s' : SSys) (h : Inv s) (hn : snext s .parser = some s') : Inv s' := by
-  obtain ⟨h1, h2, h3, h4, h5, h6, h7, h8, h9, h10, h11, h12, h13, h14, h15⟩ := h
+  obtain ⟨h1, h2, h3, h4, h5, h6, h7, h8, h9, h10, h11, h12, h13, h14⟩ := h
   obtain ⟨qcap, queueLen, consumer, inbuf, ppc, seqs, seqsClosed, closeSig, closedSig, ipc, killSig, winchSig, olds, callers, closedFlag,
-    suspendedFlag, quitCloses, da1Pending, da1First, resumeClears⟩ := s
+    suspendedFlag, suspLock, quitCloses, da1Pending, da1First, resumeClears⟩ := s
   have hb1 := b2n_le closedFlag; have hb2 := b2n_le suspendedFlag; have hb3 := b2n_le seqsClosed
   simp only [snext] at hn
   split at hn
   · split at hn <;> simp only [Option.some.injEq] at hn <;> subst hn <;>
-      refine ⟨h1, h2, h3, h4, h5, h6, h7, h8, ?_, ?_, ?_, ?_, h13, ?_, ?_⟩ <;> inv_num
+      refine ⟨h1, h2, h3, h4, h5, h6, ?_, ?_, ?_, ?_, h11, ?_, ?_, h14⟩ <;> inv_num
   · split at hn <;> simp only [Option.some.injEq, reduceCtorEq] at hn <;> subst hn <;>
-      refine ⟨h1, h2, h3, h4, h5, h6, h7, h8, ?_, ?_, ?_, ?_, h13, ?_, ?_⟩ <;> inv_num
+      refine ⟨h1, h2, h3, h4, h5, h6, ?_, ?_, ?_, ?_, h11, ?_, ?_, h14⟩ <;> inv_num
   · split at hn <;> simp only [Option.some.injEq, reduceCtorEq] at hn <;> subst hn <;>
-      refine ⟨h1, h2, h3, h4, h5, h6, h7, h8, ?_, ?_, ?_, ?_, h13, ?_, ?_⟩ <;> inv_num
+      refine ⟨h1, h2, h3, h4, h5, h6, ?_, ?_, ?_, ?_, h11, ?_, ?_, h14⟩ <;> inv_num
   · split at hn <;> simp only [Option.some.injEq, reduceCtorEq] at hn <;> subst hn <;>
-      refine ⟨h1, h2, h3, h4, h5, h6, h7, h8, ?_, ?_, ?_, ?_, h13, ?_, ?_⟩ <;> inv_num
+      refine ⟨h1, h2, h3, h4, h5, h6, ?_, ?_, ?_, ?_, h11, ?_, ?_, h14⟩ <;> inv_num
   · split at hn <;> simp only [Option.some.injEq, reduceCtorEq] at hn <;> subst hn <;>
-      refine ⟨h1, h2, h3, h4, h5, h6, h7, h8, ?_, ?_, ?_, ?_, h13, ?_, ?_⟩ <;> inv_num
+      refine ⟨h1, h2, h3, h4, h5, h6, ?_, ?_, ?_, ?_, h11, ?_, ?_, h14⟩ <;> inv_num
   · simp at hn
 
 theorem inv_consume (s s' : SSys) (h : Inv s) (hn : snext s .consume = some s') : Inv s' := by
@@ -35,24 +35,24 @@ theorem inv_consume (s s' : SSys) (h : Inv s) (hn : snext s .consume = some s') 
   exact inv_queueLen s _ h
 
 theorem inv_termReply (s s' : SSys) (h : Inv s) (hn : snext s .termReply = some s') : Inv s' := by
-  obtain ⟨h1, h2, h3, h4, h5, h6, h7, h8, h9, h10, h11, h12, h13, h14, h15⟩ := h
+  obtain ⟨h1, h2, h3, h4, h5, h6, h7, h8, h9, h10, h11, h12, h13, h14⟩ := h
   obtain ⟨qcap, queueLen, consumer, inbuf, ppc, seqs, seqsClosed, closeSig, closedSig, ipc, killSig, winchSig, olds, callers, closedFlag,
-    suspendedFlag, quitCloses, da1Pending, da1First, resumeClears⟩ := s
+    suspendedFlag, suspLock, quitCloses, da1Pending, da1First, resumeClears⟩ := s
   have hp1 := pR_le ppc; have hp2 := pX_le ppc; have hp3 := pD_le ppc; have hp4 := pE_le ppc
   simp only [snext] at hn
   split at hn <;> simp only [Option.some.injEq, reduceCtorEq] at hn
   subst hn
-  refine ⟨h1, h2, h3, h4, h5, h6, h7, h8, h9, h10, h11, h12, h13, h14, ?_⟩ <;> inv_num
+  refine ⟨h1, h2, h3, h4, h5, h6, h7, h8, h9, h10, h11, h12, ?_, h14⟩ <;> inv_num
 
 /-- New terminal input keeps the invariant — at any time, any amount, whoever consumes or not. -/
 theorem inv_termInput (s s' : SSys) (u : Option Nat) (h : Inv s) (hn : snext s (.termInput u) = some s') : Inv s' := by
-  obtain ⟨h1, h2, h3, h4, h5, h6, h7, h8, h9, h10, h11, h12, h13, h14, h15⟩ := h
+  obtain ⟨h1, h2, h3, h4, h5, h6, h7, h8, h9, h10, h11, h12, h13, h14⟩ := h
   obtain ⟨qcap, queueLen, consumer, inbuf, ppc, seqs, seqsClosed, closeSig, closedSig, ipc, killSig, winchSig, olds, callers, closedFlag,
-    suspendedFlag, quitCloses, da1Pending, da1First, resumeClears⟩ := s
+    suspendedFlag, suspLock, quitCloses, da1Pending, da1First, resumeClears⟩ := s
   have hp1 := pR_le ppc; have hp2 := pX_le ppc; have hp3 := pD_le ppc; have hp4 := pE_le ppc
   simp only [snext, Option.some.injEq] at hn
   subst hn
-  refine ⟨h1, h2, h3, h4, h5, h6, h7, h8, h9, h10, h11, h12, h13, h14, ?_⟩
+  refine ⟨h1, h2, h3, h4, h5, h6, h7, h8, h9, h10, h11, h12, ?_, h14⟩
   inv_num
 
 /-- SIGWINCH at any time. -/
@@ -63,18 +63,18 @@ theorem inv_winch (s s' : SSys) (h : Inv s) (hn : snext s .winch = some s') : In
   exact inv_winchSig s _ h
 
 macro "env_num" : tactic =>
-  `(tactic| (simp only [sumBy_append, sumBy, fActive, fSusp, fCloseSide, fPastFlag, fCS, fSC, fWD, fWC, fCQ, fUnret, fBad, closeCaller,
+  `(tactic| (simp only [sumBy_append, sumBy, fActive, fPastFlag, fCS, fSC, fWD, fWC, fCQ, fUnret, fBad, closeCaller,
       pT, pX, pE, pD, pR, emptyN, b2n_true, b2n_false, List.length_cons, List.length_nil, List.length_append, Nat.sub_zero,
       Nat.add_zero, implies_true] at * <;> omega))
 
 /-- `Close()` starts on some goroutine — the application's, or an input goroutine (signal arm, panic
-path) — while nobody is inside a bare `Suspend()`; `k` is what becomes of the pending kill signal. -/
-theorem inv_addClose (s : SSys) (k : Bool) (h : Inv s) (hseq : sumBy fSusp s.callers = 0) :
+path) — at any time; `k` is what becomes of the pending kill signal. -/
+theorem inv_addClose (s : SSys) (k : Bool) (h : Inv s) :
     Inv { s with killSig := k, callers := s.callers ++ [closeCaller] } := by
-  obtain ⟨h1, h2, h3, h4, h5, h6, h7, h8, h9, h10, h11, h12, h13, h14, h15⟩ := h
+  obtain ⟨h1, h2, h3, h4, h5, h6, h7, h8, h9, h10, h11, h12, h13, h14⟩ := h
   obtain ⟨qcap, queueLen, consumer, inbuf, ppc, seqs, seqsClosed, closeSig, closedSig, ipc, killSig, winchSig, olds, callers, closedFlag,
-    suspendedFlag, quitCloses, da1Pending, da1First, resumeClears⟩ := s
-  refine ⟨h1, h2, h3, ?_, ?_, ?_, ?_, ?_, ?_, h10, ?_, ?_, ?_, h14, ?_⟩ <;> env_num
+    suspendedFlag, suspLock, quitCloses, da1Pending, da1First, resumeClears⟩ := s
+  refine ⟨h1, h2, h3, ?_, ?_, ?_, ?_, h8, ?_, ?_, ?_, h12, ?_, ?_⟩ <;> env_num
 
 /-- What a step of an input goroutine does to the shared state. -/
 theorem iact_shape (s s' : SSys) (v v' : IView) (a : IAct) (h : iact s v a = some (s', v')) :
@@ -111,39 +111,31 @@ theorem iact_shape (s s' : SSys) (v v' : IView) (a : IAct) (h : iact s v a = som
     · simp at h; exact Or.inr (Or.inr (Or.inr (Or.inr ⟨rfl, h.1.symm⟩)))
     · simp at h
 
-/-- The shared state after a step of an input goroutine satisfies the invariant (a panic: while nobody
-is inside a bare `Suspend`). -/
-theorem inv_iact (s s' : SSys) (v v' : IView) (a : IAct) (h : Inv s) (hi : iact s v a = some (s', v'))
-    (hp : a = .panic → sumBy fSusp s.callers = 0) : Inv s' := by
+/-- The shared state after a step of an input goroutine satisfies the invariant. -/
+theorem inv_iact (s s' : SSys) (v v' : IView) (a : IAct) (h : Inv s) (hi : iact s v a = some (s', v')) : Inv s' := by
   rcases iact_shape s s' v v' a hi with rfl | ⟨n, rfl⟩ | rfl | ⟨hk, rfl⟩ | ⟨ha, rfl⟩
   · exact h
   · exact inv_queueLen s n h
   · exact inv_winchSig s false h
-  · refine inv_addClose s false h ?_
-    have := h.seq2
-    cases hz : sumBy fSusp s.callers with
-    | zero => rfl
-    | succ m => have := this (by omega); simp [hk] at this
-  · exact inv_addClose s s.killSig h (hp ha)
+  · exact inv_addClose s false h
+  · exact inv_addClose s s.killSig h
 
-theorem inv_input (s s' : SSys) (a : IAct) (h : Inv s) (hn : snext s (.input a) = some s')
-    (hp : a = .panic → sumBy fSusp s.callers = 0) : Inv s' := by
+theorem inv_input (s s' : SSys) (a : IAct) (h : Inv s) (hn : snext s (.input a) = some s') : Inv s' := by
   simp only [snext] at hn
   split at hn
   · rename_i s1 v hi
     simp only [Option.some.injEq] at hn; subst hn
-    exact inv_ipc_seqs s1 _ _ (inv_iact s s1 _ v a h hi hp)
+    exact inv_ipc_seqs s1 _ _ (inv_iact s s1 _ v a h hi)
   · simp at hn
 
-theorem inv_old (s s' : SSys) (j : Nat) (a : IAct) (h : Inv s) (hn : snext s (.old j a) = some s')
-    (hp : a = .panic → sumBy fSusp s.callers = 0) : Inv s' := by
+theorem inv_old (s s' : SSys) (j : Nat) (a : IAct) (h : Inv s) (hn : snext s (.old j a) = some s') : Inv s' := by
   simp only [snext] at hn
   split at hn
   · simp at hn
   · split at hn
     · rename_i s1 v hi
       simp only [Option.some.injEq] at hn; subst hn
-      exact inv_olds s1 _ (inv_iact s s1 _ v a h hi hp)
+      exact inv_olds s1 _ (inv_iact s s1 _ v a h hi)
     · simp at hn
 
 theorem inv_drain (s s' : SSys) (j : Nat) (h : Inv s) (hn : snext s (.drain j) = some s') : Inv s' := by
@@ -160,20 +152,16 @@ theorem sumBy_set' (f : Caller → Nat) (l : List Caller) (j : Nat) (c c' : Call
   have := sumBy_set f l j c c' h; omega
 
 macro "caller_num" h:term : tactic =>
-  `(tactic| (simp only [sumBy_set' _ _ _ _ _ $h, fActive, fSusp, fCloseSide, fPastFlag, fCS, fSC, fWD, fWC, fCQ, fUnret, fBad,
+  `(tactic| (simp only [sumBy_set' _ _ _ _ _ $h, fActive, fPastFlag, fCS, fSC, fWD, fWC, fCQ, fUnret, fBad,
       pT, pX, pE, pD, pR, emptyN,
       b2n_true, b2n_false, List.length_cons, List.length_nil, List.length_append, Nat.sub_zero, Nat.add_zero, implies_true] <;> omega))
 
-macro "caller_case" hj:term : tactic =>
-  `(tactic| (simp [fActive, fSusp, fCloseSide, fPastFlag, fSC, fWD, fWC, fCQ, fBad] at * <;>
-      refine ⟨rfl, ‹_›, ‹_›, ?_, ?_, ?_, ?_, ?_, ?_, ?_, ?_, ?_, ?_, ?_, ?_⟩ <;> caller_num $hj))
-
 theorem inv_caller (s s' : SSys) (j : Nat) (h : Inv s) (hn : snext s (.caller j) = some s') : Inv s' := by
-  obtain ⟨h1, h2, h3, h4, h5, h6, h7, h8, h9, h10, h11, h12, h13, h14, h15⟩ := h
+  obtain ⟨h1, h2, h3, h4, h5, h6, h7, h8, h9, h10, h11, h12, h13, h14⟩ := h
   obtain ⟨qcap, queueLen, consumer, inbuf, ppc, seqs, seqsClosed, closeSig, closedSig, ipc, killSig, winchSig, olds, callers, closedFlag,
-    suspendedFlag, quitCloses, da1Pending, da1First, resumeClears⟩ := s
+    suspendedFlag, suspLock, quitCloses, da1Pending, da1First, resumeClears⟩ := s
   have hp1 := pR_le ppc; have hp2 := pX_le ppc; have hp3 := pD_le ppc; have hp4 := pE_le ppc
-  have hb1 := b2n_le closedFlag; have hb2 := b2n_le suspendedFlag; have hb3 := b2n_le killSig
+  have hb1 := b2n_le closedFlag; have hb2 := b2n_le suspendedFlag; have hb3 := b2n_le suspLock
   dsimp only at *
   subst h1
   simp only [snext] at hn
@@ -182,8 +170,6 @@ theorem inv_caller (s s' : SSys) (j : Nat) (h : Inv s) (hn : snext s (.caller j)
   · rename_i c hj
     have hm : c ∈ callers := List.mem_of_getElem? hj
     have m1 := sumBy_pos_of_mem fActive callers c hm
-    have m2 := sumBy_pos_of_mem fSusp callers c hm
-    have m3 := sumBy_pos_of_mem fCloseSide callers c hm
     have m4 := sumBy_pos_of_mem fPastFlag callers c hm
     have m5 := sumBy_pos_of_mem fSC callers c hm
     have m6 := sumBy_pos_of_mem fWD callers c hm
@@ -195,35 +181,35 @@ theorem inv_caller (s s' : SSys) (j : Nat) (h : Inv s) (hn : snext s (.caller j)
     cases pc <;> cases k <;> simp only [closeStep, afterGuard, afterSignal, afterDA1, afterSuspend] at hn
     -- checkFlag (bare Suspend: excluded by wellTyped; Close: test-and-set)
     · simp [fBad] at m9; omega
-    · cases closedFlag <;> simp at hn <;> subst hn <;> simp [fActive, fSusp, fCloseSide, fPastFlag, fSC, fWD, fWC, fCQ, fBad] at m1 m2 m3 m4 m5 m6 m7 m8 m9 h4 h5 h11 h13 hb1 hb2 <;> refine ⟨rfl, h2, h3, ?_, ?_, ?_, ?_, ?_, ?_, ?_, ?_, ?_, ?_, ?_, ?_⟩ <;>
+    · cases closedFlag <;> simp at hn <;> subst hn <;> simp [fActive, fPastFlag, fSC, fWD, fWC, fCQ, fBad] at m1 m4 m5 m6 m7 m8 m9 h4 h5 h9 h11 h14 hb1 hb2 hb3 <;> refine ⟨rfl, h2, h3, ?_, ?_, ?_, ?_, ?_, ?_, ?_, ?_, ?_, ?_, ?_⟩ <;>
         caller_num hj
     -- postQuit
     · simp [fBad] at m9; omega
-    · by_cases hq : queueLen < qcap <;> simp [hq] at hn <;> subst hn <;> simp [fActive, fSusp, fCloseSide, fPastFlag, fSC, fWD, fWC, fCQ, fBad] at m1 m2 m3 m4 m5 m6 m7 m8 m9 h4 h5 h11 h13 hb1 hb2 <;> refine ⟨rfl, h2, h3, ?_, ?_, ?_, ?_, ?_, ?_, ?_, ?_, ?_, ?_, ?_, ?_⟩ <;>
+    · by_cases hq : queueLen < qcap <;> simp [hq] at hn <;> subst hn <;> simp [fActive, fPastFlag, fSC, fWD, fWC, fCQ, fBad] at m1 m4 m5 m6 m7 m8 m9 h4 h5 h9 h11 h14 hb1 hb2 hb3 <;> refine ⟨rfl, h2, h3, ?_, ?_, ?_, ?_, ?_, ?_, ?_, ?_, ?_, ?_, ?_⟩ <;>
         caller_num hj
     -- checkSuspended
-    · cases suspendedFlag <;> simp at hn <;> subst hn <;> simp [fActive, fSusp, fCloseSide, fPastFlag, fSC, fWD, fWC, fCQ, fBad] at m1 m2 m3 m4 m5 m6 m7 m8 m9 h4 h5 h11 h13 hb1 hb2 <;> refine ⟨rfl, h2, h3, ?_, ?_, ?_, ?_, ?_, ?_, ?_, ?_, ?_, ?_, ?_, ?_⟩ <;>
+    · cases suspLock <;> cases suspendedFlag <;> simp at hn <;> subst hn <;> simp [fActive, fPastFlag, fSC, fWD, fWC, fCQ, fBad] at m1 m4 m5 m6 m7 m8 m9 h4 h5 h9 h11 h14 hb1 hb2 hb3 <;> refine ⟨rfl, h2, h3, ?_, ?_, ?_, ?_, ?_, ?_, ?_, ?_, ?_, ?_, ?_⟩ <;>
         caller_num hj
-    · cases suspendedFlag <;> simp at hn <;> subst hn <;> simp [fActive, fSusp, fCloseSide, fPastFlag, fSC, fWD, fWC, fCQ, fBad] at m1 m2 m3 m4 m5 m6 m7 m8 m9 h4 h5 h11 h13 hb1 hb2 <;> refine ⟨rfl, h2, h3, ?_, ?_, ?_, ?_, ?_, ?_, ?_, ?_, ?_, ?_, ?_, ?_⟩ <;>
+    · cases suspLock <;> cases suspendedFlag <;> simp at hn <;> subst hn <;> simp [fActive, fPastFlag, fSC, fWD, fWC, fCQ, fBad] at m1 m4 m5 m6 m7 m8 m9 h4 h5 h9 h11 h14 hb1 hb2 hb3 <;> refine ⟨rfl, h2, h3, ?_, ?_, ?_, ?_, ?_, ?_, ?_, ?_, ?_, ?_, ?_⟩ <;>
         caller_num hj
     -- signalClose
-    · by_cases hq : closeSig < 1 <;> simp [hq] at hn <;> subst hn <;> simp [fActive, fSusp, fCloseSide, fPastFlag, fSC, fWD, fWC, fCQ, fBad] at m1 m2 m3 m4 m5 m6 m7 m8 m9 h4 h5 h11 h13 hb1 hb2 <;> refine ⟨rfl, h2, h3, ?_, ?_, ?_, ?_, ?_, ?_, ?_, ?_, ?_, ?_, ?_, ?_⟩ <;>
+    · by_cases hq : closeSig < 1 <;> simp [hq] at hn <;> subst hn <;> simp [fActive, fPastFlag, fSC, fWD, fWC, fCQ, fBad] at m1 m4 m5 m6 m7 m8 m9 h4 h5 h9 h11 h14 hb1 hb2 hb3 <;> refine ⟨rfl, h2, h3, ?_, ?_, ?_, ?_, ?_, ?_, ?_, ?_, ?_, ?_, ?_⟩ <;>
         caller_num hj
-    · by_cases hq : closeSig < 1 <;> simp [hq] at hn <;> subst hn <;> simp [fActive, fSusp, fCloseSide, fPastFlag, fSC, fWD, fWC, fCQ, fBad] at m1 m2 m3 m4 m5 m6 m7 m8 m9 h4 h5 h11 h13 hb1 hb2 <;> refine ⟨rfl, h2, h3, ?_, ?_, ?_, ?_, ?_, ?_, ?_, ?_, ?_, ?_, ?_, ?_⟩ <;>
+    · by_cases hq : closeSig < 1 <;> simp [hq] at hn <;> subst hn <;> simp [fActive, fPastFlag, fSC, fWD, fWC, fCQ, fBad] at m1 m4 m5 m6 m7 m8 m9 h4 h5 h9 h11 h14 hb1 hb2 hb3 <;> refine ⟨rfl, h2, h3, ?_, ?_, ?_, ?_, ?_, ?_, ?_, ?_, ?_, ?_, ?_⟩ <;>
         caller_num hj
     -- writeDA1
-    · simp at hn; subst hn; simp [fActive, fSusp, fCloseSide, fPastFlag, fSC, fWD, fWC, fCQ, fBad] at m1 m2 m3 m4 m5 m6 m7 m8 m9 h4 h5 h11 h13 hb1 hb2; refine ⟨rfl, h2, h3, ?_, ?_, ?_, ?_, ?_, ?_, ?_, ?_, ?_, ?_, ?_, ?_⟩ <;>
+    · simp at hn; subst hn; simp [fActive, fPastFlag, fSC, fWD, fWC, fCQ, fBad] at m1 m4 m5 m6 m7 m8 m9 h4 h5 h9 h11 h14 hb1 hb2 hb3; refine ⟨rfl, h2, h3, ?_, ?_, ?_, ?_, ?_, ?_, ?_, ?_, ?_, ?_, ?_⟩ <;>
         caller_num hj
-    · simp at hn; subst hn; simp [fActive, fSusp, fCloseSide, fPastFlag, fSC, fWD, fWC, fCQ, fBad] at m1 m2 m3 m4 m5 m6 m7 m8 m9 h4 h5 h11 h13 hb1 hb2; refine ⟨rfl, h2, h3, ?_, ?_, ?_, ?_, ?_, ?_, ?_, ?_, ?_, ?_, ?_, ?_⟩ <;>
+    · simp at hn; subst hn; simp [fActive, fPastFlag, fSC, fWD, fWC, fCQ, fBad] at m1 m4 m5 m6 m7 m8 m9 h4 h5 h9 h11 h14 hb1 hb2 hb3; refine ⟨rfl, h2, h3, ?_, ?_, ?_, ?_, ?_, ?_, ?_, ?_, ?_, ?_, ?_⟩ <;>
         caller_num hj
     -- waitClosed
-    · by_cases hq : closedSig > 0 <;> simp [hq] at hn <;> subst hn <;> simp [fActive, fSusp, fCloseSide, fPastFlag, fSC, fWD, fWC, fCQ, fBad] at m1 m2 m3 m4 m5 m6 m7 m8 m9 h4 h5 h11 h13 hb1 hb2 <;> refine ⟨rfl, h2, h3, ?_, ?_, ?_, ?_, ?_, ?_, ?_, ?_, ?_, ?_, ?_, ?_⟩ <;>
+    · by_cases hq : closedSig > 0 <;> simp [hq] at hn <;> subst hn <;> simp [fActive, fPastFlag, fSC, fWD, fWC, fCQ, fBad] at m1 m4 m5 m6 m7 m8 m9 h4 h5 h9 h11 h14 hb1 hb2 hb3 <;> refine ⟨rfl, h2, h3, ?_, ?_, ?_, ?_, ?_, ?_, ?_, ?_, ?_, ?_, ?_⟩ <;>
         caller_num hj
-    · by_cases hq : closedSig > 0 <;> simp [hq] at hn <;> subst hn <;> simp [fActive, fSusp, fCloseSide, fPastFlag, fSC, fWD, fWC, fCQ, fBad] at m1 m2 m3 m4 m5 m6 m7 m8 m9 h4 h5 h11 h13 hb1 hb2 <;> refine ⟨rfl, h2, h3, ?_, ?_, ?_, ?_, ?_, ?_, ?_, ?_, ?_, ?_, ?_, ?_⟩ <;>
+    · by_cases hq : closedSig > 0 <;> simp [hq] at hn <;> subst hn <;> simp [fActive, fPastFlag, fSC, fWD, fWC, fCQ, fBad] at m1 m4 m5 m6 m7 m8 m9 h4 h5 h9 h11 h14 hb1 hb2 hb3 <;> refine ⟨rfl, h2, h3, ?_, ?_, ?_, ?_, ?_, ?_, ?_, ?_, ?_, ?_, ?_⟩ <;>
         caller_num hj
     -- closeQuit
     · simp [fBad] at m9; omega
-    · simp at hn; subst hn; simp [fActive, fSusp, fCloseSide, fPastFlag, fSC, fWD, fWC, fCQ, fBad] at m1 m2 m3 m4 m5 m6 m7 m8 m9 h4 h5 h11 h13 hb1 hb2; refine ⟨rfl, h2, h3, ?_, ?_, ?_, ?_, ?_, ?_, ?_, ?_, ?_, ?_, ?_, ?_⟩ <;>
+    · simp at hn; subst hn; simp [fActive, fPastFlag, fSC, fWD, fWC, fCQ, fBad] at m1 m4 m5 m6 m7 m8 m9 h4 h5 h9 h11 h14 hb1 hb2 hb3; refine ⟨rfl, h2, h3, ?_, ?_, ?_, ?_, ?_, ?_, ?_, ?_, ?_, ?_, ?_⟩ <;>
         caller_num hj
     -- returned
     · simp at hn
@@ -244,59 +230,48 @@ theorem sumBy_zero_of_unret (f : Caller → Nat) (hf : ∀ c, fUnret c = 0 → f
       simp [sumBy] at h
       simp [sumBy, hf c h.1, sumBy_zero_of_unret f hf r h.2]
 
-/-- `Close()` may be called by any goroutine at any time, except while the main goroutine is inside a
-bare `Suspend()`. -/
-theorem inv_callClose (s s' : SSys) (h : Inv s) (hn : snext s .callClose = some s')
-    (hseq : sumBy fSusp s.callers = 0) : Inv s' := by
+/-- `Close()` may be called by any goroutine at any time. -/
+theorem inv_callClose (s s' : SSys) (h : Inv s) (hn : snext s .callClose = some s') : Inv s' := by
   simp only [snext, Option.some.injEq] at hn
   subst hn
-  exact inv_addClose s s.killSig h hseq
+  exact inv_addClose s s.killSig h
 
-/-- A kill signal may arrive at any time, except while the main goroutine is inside a bare `Suspend()`. -/
-theorem inv_signal (s s' : SSys) (h : Inv s) (hn : snext s .signal = some s')
-    (hseq : sumBy fSusp s.callers = 0) : Inv s' := by
-  obtain ⟨h1, h2, h3, h4, h5, h6, h7, h8, h9, h10, h11, h12, h13, h14, h15⟩ := h
-  obtain ⟨qcap, queueLen, consumer, inbuf, ppc, seqs, seqsClosed, closeSig, closedSig, ipc, killSig, winchSig, olds, callers, closedFlag,
-    suspendedFlag, quitCloses, da1Pending, da1First, resumeClears⟩ := s
+/-- A kill signal may arrive at any time. -/
+theorem inv_signal (s s' : SSys) (h : Inv s) (hn : snext s .signal = some s') : Inv s' := by
   simp only [snext] at hn
   split at hn <;> simp only [Option.some.injEq, reduceCtorEq] at hn
   subst hn
-  refine ⟨h1, h2, h3, h4, h5, h6, ?_, h8, h9, h10, h11, h12, h13, h14, h15⟩
-  intro hx; simp only at hseq hx; omega
+  exact inv_killSig s true h
 
-/-- The main goroutine calls `Suspend()` when nobody is inside `Close`/`Suspend` and no kill signal is pending. -/
-theorem inv_callSuspend (s s' : SSys) (h : Inv s) (hn : snext s .callSuspend = some s')
-    (hidle : idle s) (hk : s.killSig = false) : Inv s' := by
-  have e1 := sumBy_le_unret fCloseSide (fun c => by obtain ⟨pc, k⟩ := c; cases pc <;> cases k <;> simp [fCloseSide, fUnret]) s.callers
-  have e2 := sumBy_le_unret fSusp (fun c => by obtain ⟨pc, k⟩ := c; cases pc <;> cases k <;> simp [fSusp, fUnret]) s.callers
-  obtain ⟨h1, h2, h3, h4, h5, h6, h7, h8, h9, h10, h11, h12, h13, h14, h15⟩ := h
+/-- `Suspend()` may be called by any goroutine at any time (it waits for `vx.suspendMu`). -/
+theorem inv_callSuspend (s s' : SSys) (h : Inv s) (hn : snext s .callSuspend = some s') : Inv s' := by
+  obtain ⟨h1, h2, h3, h4, h5, h6, h7, h8, h9, h10, h11, h12, h13, h14⟩ := h
   obtain ⟨qcap, queueLen, consumer, inbuf, ppc, seqs, seqsClosed, closeSig, closedSig, ipc, killSig, winchSig, olds, callers, closedFlag,
-    suspendedFlag, quitCloses, da1Pending, da1First, resumeClears⟩ := s
+    suspendedFlag, suspLock, quitCloses, da1Pending, da1First, resumeClears⟩ := s
   simp only [snext, Option.some.injEq] at hn
   subst hn
-  simp only [idle] at hidle
-  simp only at hk; subst hk
-  refine ⟨h1, h2, h3, ?_, ?_, ?_, ?_, ?_, ?_, h10, ?_, ?_, ?_, h14, ?_⟩ <;> env_num
+  refine ⟨h1, h2, h3, ?_, ?_, ?_, ?_, h8, ?_, ?_, ?_, h12, ?_, ?_⟩ <;> env_num
 
-/-- The main goroutine calls `Resume()` after `Suspend()` has returned (nobody inside
+/-- The application calls `Resume()` after its `Suspend()` has returned (nobody inside
 `Close`/`Suspend`, the session not closed) — whether or not the previous input goroutine has finished. -/
 theorem inv_resume (s s' : SSys) (h : Inv s) (hn : snext s .resume = some s')
     (hidle : idle s) (hopen : s.closedFlag = false) : Inv s' := by
-  have e1 := sumBy_le_unret fSC (fun c => by obtain ⟨pc, k⟩ := c; cases pc <;> simp [fSC, fUnret]) s.callers
+  have e0 := sumBy_le_unret fSC (fun c => by obtain ⟨pc, k⟩ := c; cases pc <;> simp [fSC, fUnret]) s.callers
   have e2 := sumBy_le_unret fWD (fun c => by obtain ⟨pc, k⟩ := c; cases pc <;> simp [fWD, fUnret]) s.callers
   have e3 := sumBy_le_unret fWC (fun c => by obtain ⟨pc, k⟩ := c; cases pc <;> simp [fWC, fUnret]) s.callers
   have e4 := sumBy_le_unret fCQ (fun c => by obtain ⟨pc, k⟩ := c; cases pc <;> simp [fCQ, fUnret]) s.callers
   have e5 := sumBy_le_unret fActive (fun c => by obtain ⟨pc, k⟩ := c; cases pc <;> cases k <;> simp [fActive, fUnret]) s.callers
-  obtain ⟨h1, h2, h3, h4, h5, h6, h7, h8, h9, h10, h11, h12, h13, h14, h15⟩ := h
+  obtain ⟨h1, h2, h3, h4, h5, h6, h7, h8, h9, h10, h11, h12, h13, h14⟩ := h
   obtain ⟨qcap, queueLen, consumer, inbuf, ppc, seqs, seqsClosed, closeSig, closedSig, ipc, killSig, winchSig, olds, callers, closedFlag,
-    suspendedFlag, quitCloses, da1Pending, da1First, resumeClears⟩ := s
+    suspendedFlag, suspLock, quitCloses, da1Pending, da1First, resumeClears⟩ := s
   simp only [snext] at hn
   split at hn <;> simp only [Option.some.injEq, reduceCtorEq] at hn
   rename_i hc
-  simp only [beq_iff_eq] at hc
-  subst hc; subst hn
+  simp only [Bool.and_eq_true, beq_iff_eq, Bool.not_eq_true'] at hc
+  obtain ⟨hc1, hc2⟩ := hc
+  subst hc1; subst hc2; subst hn
   simp only at h2 hopen; subst h2; subst hopen
   simp only [idle] at hidle
-  refine ⟨h1, rfl, h3, h4, h5, h6, h7, h8, ?_, ?_, ?_, ?_, ?_, ?_, ?_⟩ <;> env_num
+  refine ⟨h1, rfl, h3, h4, h5, h6, ?_, ?_, ?_, ?_, ?_, ?_, ?_, ?_⟩ <;> env_num
 
 end VaxisModel.Lemmas.ConcInv
